@@ -441,7 +441,11 @@ def direct_case(rng):
                 props.append((key, 'tex', rng.choice(images)))
             elif k < 0.8:
                 props.append((key, 'color', None))
-        effects.append(('fx%d' % e, shader, props, None))   # no bump map: a bump <texture> must name a sampler (anything else is a broken reference)
+        # some images get a proper surface + sampler pair (sids sf_<image> / sm_<image>); their textures name the sampler or, as exporters do, the image
+        declared = sorted(im for im in images if rng.random() < 0.3) if rng.random() < 0.4 else []
+        props = [(key, kind, ('sm_' + im) if kind == 'tex' and im in declared and rng.random() < 0.5 else im) for key, kind, im in props]
+        # (no bump map: a bump <texture> must name a sampler, anything else is a broken reference)
+        effects.append(('fx%d' % e, shader, props, declared or None))
     return images, effects
 
 
@@ -451,8 +455,13 @@ def direct_doc(images, effects):
     for im in images:
         out.append('<image id="%s"><init_from>%s.png</init_from></image>' % (im, im))
     out.append('</library_images><library_effects>')
-    for eid, shader, props, bump in effects:
-        out.append('<effect id="%s"><profile_COMMON><technique sid="common"><%s>' % (eid, shader))
+    for eid, shader, props, declared in effects:
+        bump = None
+        out.append('<effect id="%s"><profile_COMMON>' % eid)
+        for im in declared or []:
+            out.append('<newparam sid="sf_%s"><surface type="2D"><init_from>%s</init_from></surface></newparam>'
+                       '<newparam sid="sm_%s"><sampler2D><source>sf_%s</source></sampler2D></newparam>' % (im, im, im, im))
+        out.append('<technique sid="common"><%s>' % shader)
         for key, kind, im in props:
             out.append('<%s>%s</%s>' % (key, '<texture texture="%s" texcoord="UV0"/>' % im if kind == 'tex' else '<color>0.5 0.25 0.125 1</color>', key))
         out.append('</%s>' % shader)
@@ -478,7 +487,8 @@ def check_direct(images, effects):
         pr = identity_check(d)
         if pr:
             return ('direct-identity', '%s: %s (effects %s)' % (when, pr[:3], effects))
-        for eid, shader, props, bump in effects:
+        for eid, shader, props, declared in effects:
+            bump = None
             e = d.effects.get(eid)
             if e is None:
                 return ('direct-effect-missing', '%s: effect %s is not in the library' % (when, eid))
@@ -491,11 +501,14 @@ def check_direct(images, effects):
                     if key == 'bumpmap':
                         continue           # bump maps only through a sampler already present (documented loader behaviour is looked at in C05)
                     return ('direct-not-a-map', '%s: %s of %s names image %s but is %r' % (when, key, eid, im, type(v).__name__))
+                name, im = im, (im[3:] if im.startswith('sm_') else im)
                 if v.sampler.surface.image is not d.images.get(im):
                     return ('direct-wrong-image', '%s: %s of %s names image %s but holds image %r' % (when, key, eid, im, getattr(v.sampler.surface.image, 'id', None)))
-                if im in seen and seen[im] is not v.sampler:
-                    return ('direct-two-samplers', '%s: two properties of %s name image %s but hold different sampler objects' % (when, eid, im))
-                seen[im] = v.sampler
+                if name in seen and seen[name] is not v.sampler:
+                    return ('direct-two-samplers', '%s: two properties of %s name %s but hold different sampler objects' % (when, eid, name))
+                seen[name] = v.sampler
+                if name.startswith('sm_') and v.sampler.id != name:
+                    return ('direct-wrong-sampler', '%s: %s of %s names sampler %s but holds sampler %r' % (when, key, eid, name, v.sampler.id))
         return None
     res = look(d, 'after load')
     if res:
@@ -569,7 +582,7 @@ def direct_observe(images, effects):
 def run(ctx):
     ctx.rule = ('instance_node graphs over 1-6 nodes (targets: any node incl. itself, missing ids; nested or direct; in <library_nodes> or as visual_scene roots; '
                 'definition order shuffled); docgen documents with permuted libraries / node definitions; nine kinds of dangling reference; renames of every referenced '
-                'library object before write; effects without sampler parameters whose textures name 1-4 images directly (ids that look like made-up surface ids among them; shared between properties and effects, load and write+reload); non-trivial = graph with at least one reference / document with at least one reference; distinct by content')
+                'library object before write; effects without sampler parameters whose textures name 1-4 images directly (ids that look like made-up surface ids among them; some images with a declared surface + sampler pair named by sid or by image id; shared between properties and effects, load and write+reload); non-trivial = graph with at least one reference / document with at least one reference; distinct by content')
     reported = set()
 
     def report(res, rep):
@@ -674,6 +687,7 @@ def run(ctx):
     dlines, dactual = [], []
     for i in range(ctx.n(150, 5000)):
         images, effects = direct_case(ctx.rng)
+        ctx.count('direct-texture:declared-samplers' if any(d_ for _, _, _, d_ in effects) else 'direct-texture:no-parameters')
         shared = any(len([1 for _, k, im in props if k == 'tex']) > len(set(im for _, k, im in props if k == 'tex')) for _, _, props, _ in effects)
         ctx.case(dict(kind='direct', images=images, effects=effects), nontrivial=shared)
         ctx.count('direct-texture:' + ('shared-image' if shared else 'plain'))
@@ -690,7 +704,9 @@ def run(ctx):
                 obs = direct_observe(images, effects)
             except Exception as e:
                 obs = ['raised:' + type(e).__name__] * len(effects)
-            for (eid, shader, props, bump), o in zip(effects, obs):
+            for (eid, shader, props, declared), o in zip(effects, obs):
+                if declared:
+                    continue        # Pyc.DirectTex models effects without sampler parameters
                 dlines.append('direct ' + ' '.join('%s:%s' % (k, im) for k, kind, im in props if kind == 'tex'))
                 dactual.append((o, dict(kind='direct', images=images, effects=effects)))
     if ctx.lean_ok and dlines:
